@@ -346,6 +346,7 @@ type nodeSim struct {
 	noReportJudge bool
 	dst        *dtlsrState
 	pst        *prophetState
+	pstBorn time.Time // when the current incarnation started (zero: first incarnation)
 	vecSeq     int
 	emitted    map[string]bool
 	trackSeq   int
